@@ -156,8 +156,44 @@ func runC12(rc *RunCtx, variant string) *simkit.Violation {
 		return v
 	}
 	terminal := func() bool { return d.VMet.Peek(model.GetArchivePathToFinalDiamond("r1", did)) != nil }
+	// progress: without an early committer nothing can end the diamond during phases 0 and 1, so every split id that had at
+	// least one run that was not killed is complete by now (a crashed run may be re-run, concurrent runs of one id: one wins)
+	if variant == "open" && !earlyCommit {
+		doneNow, _ := readDoneSplits(d.VMet, "r1", did)
+		isDone := map[string]bool{}
+		for _, s := range doneNow {
+			isDone[s.ID] = true
+		}
+		for si, sid := range splitIDs {
+			// (two runs started together may collide when they register the split: only a run that had the split id for
+			// itself - the single first run, or the re-run of phase 1 - is required to get through)
+			alive, errs, first := 0, []string{}, 0
+			for _, r := range runs {
+				if r.si == si && r.run < 2 {
+					first++
+				}
+			}
+			for _, r := range runs {
+				if r.si == si && !r.client.Dead && (r.run == 2 || first == 1) {
+					alive++
+					if r.task.Err != nil {
+						errs = append(errs, r.task.Err.Error())
+					}
+				}
+			}
+			if alive > 0 && !isDone[sid] {
+				return Viol(prop, "split-never-completes", "split add", sid, "split %d had %d run(s) that were not interrupted, on a diamond nobody committed or canceled, and is not complete: %v", si, alive, errs)
+			}
+		}
+		w.Probe("splits-complete-before-commit")
+	}
 	// --- phase 2: commit(s) / cancel
 	canceled := false
+	var cancelTask *simkit.Task
+	doneBeforeCommit := 0
+	if ds, _ := readDoneSplits(d.VMet, "r1", did); ds != nil {
+		doneBeforeCommit = len(ds)
+	}
 	switch variant {
 	case "concurrent-commits":
 		startCommit("commit-a", -1, 0)
@@ -188,11 +224,29 @@ func runC12(rc *RunCtx, variant string) *simkit.Violation {
 			c := startCommit("commit-a", crashNth, kind)
 			if withCancel {
 				cc := w.Client("canceller")
-				w.Go(cc, "cancel", cancelFn(d.Stores(cc), "r1", did))
+				cancelTask = w.Go(cc, "cancel", cancelFn(d.Stores(cc), "r1", did))
 				canceled = true
 			}
 			if v := runPhase(); v != nil {
 				return v
+			}
+			// progress: an uninterrupted commit of a diamond with complete splits succeeds unless a cancel got in first;
+			// a cancel that reports success has ended the diamond; of an uninterrupted commit and a cancel, one succeeds
+			if !c.client.Dead && c.task.Done {
+				switch {
+				case cancelTask == nil && doneBeforeCommit > 0 && c.task.Err != nil:
+					return Viol(prop, "commit-refused", "Commit", did, "an uninterrupted commit of an open diamond with %d complete split(s), with no cancel around, failed: %v", doneBeforeCommit, c.task.Err)
+				case cancelTask != nil && cancelTask.Done && cancelTask.Err != nil && c.task.Err != nil && doneBeforeCommit > 0:
+					return Viol(prop, "commit-refused", "Commit-and-Cancel", did, "a commit (%d complete splits) and a cancel raced and both failed: commit: %v; cancel: %v", doneBeforeCommit, c.task.Err, cancelTask.Err)
+				}
+			}
+			if cancelTask != nil && cancelTask.Done && cancelTask.Err == nil {
+				o := d.VMet.Peek(model.GetArchivePathToFinalDiamond("r1", did))
+				var dd model.DiamondDescriptor
+				if o == nil || yaml.Unmarshal(o.Data, &dd) != nil || dd.State != model.DiamondCanceled {
+					return Viol(prop, "cancel-success-not-recorded", "Cancel", did, "the cancel reported success but the diamond's terminal descriptor does not say canceled (state %q, present=%v)", dd.State, o != nil)
+				}
+				w.Probe("successful-cancel-is-recorded")
 			}
 			// retry of a crashed commit: only when no bundle descriptor of this diamond has landed (the other case is
 			// the recorded finding C12/two-bundles/crash-after-bundle-descriptor+retry, reproduced by its own scenario)
